@@ -41,6 +41,12 @@ TAG_A = Tagger("A")
 TAG_B = Tagger("B")
 
 
+def apply_named(func, x, object_name="n", self_like=0):
+    """parameter names that joblib's own helpers use for themselves"""
+    _ran("apply_named")
+    return (func, x, object_name, self_like)
+
+
 def opaque_user(o, x):
     _ran("opaque_user")
     return (o.v, x)
@@ -247,6 +253,10 @@ def build_program(states, rng, per_sig=6, kinds=("function",), max_sigs=None):
     for tgt in ("TAG_A.tag", "TAG_B.tag"):
         add(dict(f=tgt, kind="expr", args="()", kwargs="{'this': 3}", mode="call"), role="call", cls=("tag", tgt))
         add(dict(f=tgt, kind="expr", args="()", kwargs="{'this': 3}", mode="call"), role="equiv", cls=("tag", tgt))
+    # a Memory with its default verbosity (1) formats every call it computes: argument names must not collide with its helpers'
+    for kw in ("{'func': 'abs', 'x': 1}", "{'x': 2, 'func': 'f', 'object_name': 'o'}"):
+        add(dict(f="apply_named", kind="function", args="()", kwargs=kw, mode="call", verbose=1, store="_V"), role="call", cls=("named", kw))
+        add(dict(f="apply_named", kind="function", args="()", kwargs=kw, mode="call", verbose=1, store="_V"), role="equiv", cls=("named", kw))
     for tgt in ("Tagger.make", "SubTagger.make"):
         add(dict(f=tgt, kind="expr", args="()", kwargs="{'cls': 'encoder'}", mode="call"), role="call", cls=("make", tgt))
     return "\n\n".join(src), steps, exp
